@@ -4981,6 +4981,8 @@ class DecLinConstr(LinConstr):
 
     def forall(self, ambset):
 
+        if hasattr(ambset, 'model') and ambset.model is not self.model.top:
+            raise ValueError('Models mismatch.')
         self.ambset = ambset
 
         return self
@@ -5014,6 +5016,8 @@ class ExpPWConstr(PWConstr):
 
     def forall(self, ambset):
 
+        if hasattr(ambset, 'model') and ambset.model is not self.model:
+            raise ValueError('Models mismatch.')
         return ExpPWConstr(self.model, self.pieces, ambset)
 
 
